@@ -45,10 +45,15 @@ pub fn model_converter() -> Converter {
 }
 
 pub fn qty_from_json(q: &Value) -> Quantity<QValue> {
+    qty_from_json_div(q, 1.0)
+}
+
+/// the same quantity with its amount divided by `div` (thirds and seven-thousandths survive no decimal rounding)
+pub fn qty_from_json_div(q: &Value, div: f64) -> Quantity<QValue> {
     let unit = q["unit"].as_str().filter(|u| !u.is_empty()).map(|u| u.to_string());
     let v = match q["t"].as_str().unwrap() {
-        "num" => QValue::Number(Number::Regular(q["lo"].as_f64().unwrap() / 4.0)),
-        "range" => QValue::Range { start: Number::Regular(q["lo"].as_f64().unwrap() / 4.0), end: Number::Regular(q["hi"].as_f64().unwrap() / 4.0) },
+        "num" => QValue::Number(Number::Regular(q["lo"].as_f64().unwrap() / 4.0 / div)),
+        "range" => QValue::Range { start: Number::Regular(q["lo"].as_f64().unwrap() / 4.0 / div), end: Number::Regular(q["hi"].as_f64().unwrap() / 4.0 / div) },
         _ => QValue::Text(q["txt"].as_str().unwrap().to_string()),
     };
     Quantity::new(v, unit)
@@ -56,6 +61,11 @@ pub fn qty_from_json(q: &Value) -> Quantity<QValue> {
 
 /// totals per class in quarter base units; `exact` tells whether every total was within 1e-6 of an integer
 pub fn totals<'a>(qs: impl Iterator<Item = &'a Quantity<QValue>>, conv: &Converter) -> Value {
+    totals_div(qs, conv, 1.0)
+}
+
+/// totals multiplied back by `div`
+pub fn totals_div<'a>(qs: impl Iterator<Item = &'a Quantity<QValue>>, conv: &Converter, div: f64) -> Value {
     let mut classes: BTreeMap<String, (f64, f64)> = BTreeMap::new();
     let mut texts: BTreeMap<(String, String), u64> = BTreeMap::new();
     for q in qs {
@@ -69,13 +79,13 @@ pub fn totals<'a>(qs: impl Iterator<Item = &'a Quantity<QValue>>, conv: &Convert
             QValue::Text(t) => *texts.entry((project::s(t), project::s(unit))).or_insert(0) += 1,
             QValue::Number(n) => {
                 let e = classes.entry(cls).or_insert((0.0, 0.0));
-                e.0 += n.value() * mul * 4.0;
-                e.1 += n.value() * mul * 4.0;
+                e.0 += n.value() * mul * 4.0 * div;
+                e.1 += n.value() * mul * 4.0 * div;
             }
             QValue::Range { start, end } => {
                 let e = classes.entry(cls).or_insert((0.0, 0.0));
-                e.0 += start.value() * mul * 4.0;
-                e.1 += end.value() * mul * 4.0;
+                e.0 += start.value() * mul * 4.0 * div;
+                e.1 += end.value() * mul * 4.0 * div;
             }
         }
     }
@@ -120,9 +130,27 @@ pub fn main(args: &[String]) {
                                       "g1fit": totals(fitted.iter(), &conv), "fit_ok": fit_ok, "len1": g[0].len(), "vec1": g[0].clone().into_vec().len()}));
                 }
             });
+            // the whole sequence again with every amount divided by 3 and by 7000: the final totals, multiplied back
+            let scaled = |div: f64| -> Value {
+                guarded(|| {
+                    let mut h = [GroupedQuantity::empty(), GroupedQuantity::empty()];
+                    for op in r["ops"].as_array().unwrap() {
+                        match op["op"].as_str().unwrap() {
+                            "add" => h[op["g"].as_u64().unwrap() as usize - 1].add(&qty_from_json_div(&op["q"], div), &conv),
+                            _ => {
+                                let other = h[1].clone();
+                                h[0].merge(&other, &conv);
+                            }
+                        }
+                    }
+                    totals_div(h[0].iter(), &conv, div)
+                })
+                .unwrap_or_else(|_| json!({"classes": [], "texts": [], "exact": false}))
+            };
+            let (third, small) = (scaled(3.0), scaled(7000.0));
             let mut o = r.clone();
             o["obs"] = match res {
-                Ok(()) => json!({"st": "ok", "steps": steps}),
+                Ok(()) => json!({"st": "ok", "steps": steps, "final3": third, "final7000": small}),
                 Err(p) => json!({"st": "panic", "sig": panic_signature(&p), "steps": steps}),
             };
             o
